@@ -14,7 +14,8 @@
 From Coq Require Import Reals Lra Lia List ZArith Bool.
 From Tevec Require Import Base.Prelude Model.MapOps Spec.MapOps Proofs.MapOps.
 From Tevec Require Import Base.Num Base.XR Spec.Stats Spec.Stats2 Model.SortCmp Model.Quantile Model.Agg Model.HalfLife
-     Model.Composite Proofs.Quantile Proofs.AggGeneric Proofs.AggXR Proofs.Agg Proofs.HalfLife Proofs.HalfLifeExec.
+     Model.Composite Model.NullView Proofs.Quantile Proofs.AggGeneric Proofs.AggXR Proofs.Agg Proofs.ViewBase Proofs.NullView
+     Proofs.HalfLife Proofs.HalfLifeExec.
 Import ListNotations.
 
 (* ================================================================================================ *)
@@ -492,3 +493,74 @@ Section ExecProbes.
     - apply (half_life_crossing ab len Hout Hlen j r F Hr).
   Qed.
 End ExecProbes.
+
+(* ================================================================================================ *)
+(* 5. half_life is encoding independent: two series with the same option view, two dictionaries whose T::none() is
+      a null — the same probes get the same answers, so the same half-life (f64 vs Option<f64>) *)
+Lemma Forall2_repeat {X Y} (R : X -> Y -> Prop) a b n : R a b -> Forall2 R (repeat a n) (repeat b n).
+Proof. intros H. induction n; cbn [repeat]; constructor; assumption. Qed.
+Lemma Forall2_firstn {X Y} (R : X -> Y -> Prop) l1 l2 : Forall2 R l1 l2 -> forall n, Forall2 R (firstn n l1) (firstn n l2).
+Proof. induction 1 as [|a b r1 r2 Hab _ IH]; intros [|n]; cbn [firstn]; constructor; auto. Qed.
+
+Section ExecEnc.
+  Context {T1 T2 : Type} (D1 : IsNone T1 XR) (D2 : IsNone T2 XR).
+  Variables (dm1 : NullDict T1 XR) (dm2 : NullDict T2 XR) (nv1 : T1) (nv2 : T2).
+  Hypothesis Hn1 : MapOps.none dm1 = Ok nv1.
+  Hypothesis Hn2 : MapOps.none dm2 = Ok nv2.
+  Hypothesis Hnv1 : Num.is_none (IsNone := D1) nv1 = true.
+  Hypothesis Hnv2 : Num.is_none (IsNone := D2) nv2 = true.
+
+  Lemma nv_same_view : same_view D1 D2 nv1 nv2.
+  Proof. unfold same_view, to_opt. rewrite Hnv1, Hnv2. reflexivity. Qed.
+
+  Lemma lagged_view xs1 xs2 lag :
+    SameView D1 D2 xs1 xs2 -> SameView D1 D2 (lagged nv1 lag xs1) (lagged nv2 lag xs2).
+  Proof.
+    intros HS. pose proof (same_view_length HS) as HL. unfold SameView.
+    destruct (Nat.lt_ge_cases lag (length xs1)) as [L|L].
+    - rewrite (lagged_eq (DT := D1) nv1 Hnv1 lag xs1 L), (lagged_eq (DT := D2) nv2 Hnv2 lag xs2) by lia.
+      apply Forall2_app; [apply Forall2_repeat, nv_same_view|]. rewrite HL. apply Forall2_firstn. exact HS.
+    - rewrite (lagged_out nv1 lag xs1 L), (lagged_out nv2 lag xs2) by lia. rewrite HL.
+      apply Forall2_repeat, nv_same_view.
+  Qed.
+
+  Lemma above_half_view mp xs1 xs2 lag :
+    SameView D1 D2 xs1 xs2 -> above_half (DT := D1) mp nv1 xs1 lag = above_half (DT := D2) mp nv2 xs2 lag.
+  Proof.
+    intros HS. unfold above_half, autocorr.
+    rewrite (vcorr_pairs (@idA XR) xs1 (lagged nv1 lag xs1) xs2 (lagged nv2 lag xs2)
+               (vpairs_same_view HS (lagged_view xs1 xs2 lag HS)) mp).
+    reflexivity.
+  Qed.
+
+  Theorem half_life_exec_view mp xs1 xs2 :
+    SameView D1 D2 xs1 xs2 -> half_life_exec (DT := D1) dm1 mp xs1 = half_life_exec (DT := D2) dm2 mp xs2.
+  Proof.
+    intros HS. unfold half_life_exec. rewrite (same_view_length HS), Hn1, Hn2.
+    destruct (length xs2 =? 0); [reflexivity|].
+    apply half_life_ext. intros k _. apply above_half_view. exact HS.
+  Qed.
+End ExecEnc.
+
+(* the concrete reading against an "optimisation" that skips a lag because it leaves only min_periods pairs: on a series
+   without nulls the test at lag L is true iff len - L >= max(mp, 2), both spreads exceed the floor and r > 1/2 *)
+Theorem above_half_all_valid_iff (mp : nat) (rs : list R) (lag : nat) :
+  let P := combine (skipn lag rs) rs in
+  above_half (DT := IsNoneXR) mp None (map Some rs) lag = true <->
+  (Nat.max mp 2 <= length rs - lag)%nat /\ (EPS < popvarR (xs_of P))%R /\ (EPS < popvarR (ys_of P))%R /\ (1 / 2 < corrR P)%R.
+Proof.
+  intros P.
+  rewrite (above_half_iff (DT := IsNoneXR) None eq_refl mp (map Some rs) lag (canonical_float _)).
+  rewrite lag_pairs_all_valid_length, lag_pairs_all_valid. reflexivity.
+Qed.
+
+(* f64 vs the canonical Option<f64> rendering *)
+Lemma half_life_exec_opt (mp : option nat) (xs : list XR) :
+  half_life_exec (DT := IsNone_option) (dict_opt (nisnan (A := XR))) mp
+                 (map (fun x : XR => match x with Some r => Some (Some r) | None => None end) xs)
+  = half_life_exec (DT := IsNoneXR) (fdict (A := XR)) mp xs.
+Proof.
+  apply (half_life_exec_view IsNone_option IsNoneXR (dict_opt (nisnan (A := XR))) (fdict (A := XR)) None None);
+    try reflexivity.
+  unfold SameView. induction xs as [|[r|] xs IH]; cbn [map]; constructor; try exact IH; reflexivity.
+Qed.
